@@ -30,6 +30,9 @@ pub fn run(ctx: &mut Ctx, prop: &str) {
     if prop == "C06" || prop == "C03" || prop == "C10" {
         ipa_stray_shifted_commitment(ctx, prop);
     }
+    if prop == "C03" || prop == "C11" {
+        ipa_round_challenges_bind_proof(ctx, prop);
+    }
     if prop == "C14" || prop == "C03" || prop == "C02" {
         stream_repeated_point(ctx, prop);
     }
@@ -545,5 +548,105 @@ fn ipa_stray_shifted_commitment(ctx: &mut Ctx, prop: &str) {
                 format!("# scheme: ipa\n# case: {}\n# seed: {}\n# lc1 = p1, lc2 = p2 at one point; p1's commitment presented as Commitment {{ comm, shifted_comm: Some(commit(q)) }} with bound None; proof = open_combinations on (p1, q); claimed lc2(z) = q(z)\n# rerun: .build/cargo/debug/pcv-harness {} --seed {} --only {}\n", id, ctx.seed, prop, ctx.seed, id));
         }
         ctx.rep.case(&format!("attack ipa stray shifted_comm d={} -> {:?}", d, r.as_ref().map_err(|e| e.chars().take(40).collect::<String>())), Some(format!("attack-ipa-stray-shifted/{}", d)));
+    }
+}
+
+/// IPA's round challenges come from a hash (the scheme's random oracle), which the model treats as an oracle:
+/// its OUTPUTS are replayed, so what is HASHED must be tied separately.  Every theorem about exceptional round
+/// challenges (`ipa_algebraic_forgery_trichotomy`: "λᵢ, ρᵢ are fixed before uᵢ is drawn") needs round `i`'s input
+/// to contain the previous challenge, `L_i` and `R_i`, and the first input to contain the combined commitment,
+/// the point and the combined value.  Both sides (`open` and `check`) are inspected through a logging digest.
+fn ipa_round_challenges_bind_proof(ctx: &mut Ctx, prop: &str) {
+    use crate::props_ipa::ipa;
+    type LPC = ipa::PC;
+    let contains = |hay: &[u8], needle: &[u8]| needle.is_empty() || hay.windows(needle.len()).any(|w| w == needle);
+    let ser = |x: &dyn Fn(&mut Vec<u8>)| {
+        let mut b = vec![];
+        x(&mut b);
+        b
+    };
+    for i in 0..ctx.n(4, 16) {
+        let id = format!("{}/ipa-oracle-inputs/{}", prop, i);
+        if !ctx.selected(&id) {
+            continue;
+        }
+        let mut rng = rng_for(ctx.seed, "ipa-oracle-inputs", i as u64);
+        let d = [3usize, 7, 15, 1][i % 4];
+        let hiding = i % 2 == 1;
+        let r = guarded(|| -> Result<Vec<String>, String> {
+            let pp = LPC::setup(d, None, &mut rng).map_err(|e| format!("{:?}", e))?;
+            let (ck, vk) = LPC::trim(&pp, d, if hiding { 1 } else { 0 }, None).map_err(|e| format!("{:?}", e))?;
+            let p = <UniPoly as DenseUVPolynomial<Fr>>::rand(d, &mut rng);
+            let lp = LabeledPolynomial::new("p".to_string(), p.clone(), None, if hiding { Some(1) } else { None });
+            let (comms, sts) = LPC::commit(&ck, [&lp], Some(&mut rng)).map_err(|e| format!("{:?}", e))?;
+            let z = Fr::rand(&mut rng);
+            let v = p.evaluate(&z);
+            let mut problems = vec![];
+            ipa::ro_clear();
+            let mut sp = generic::fresh_sponge();
+            let proof = LPC::open(&ck, [&lp], &comms, &z, &mut sp, &sts, Some(&mut rng)).map_err(|e| format!("{:?}", e))?;
+            let plog = ipa::ro_take_raw();
+            let mut sp = generic::fresh_sponge();
+            let ok = LPC::check(&vk, &comms, &z, [v], &proof, &mut sp, Some(&mut rng)).map_err(|e| format!("{:?}", e))?;
+            let vlog = ipa::ro_take_raw();
+            if !ok {
+                problems.push("honest proof rejected".to_string());
+            }
+            let zb = ser(&|b| z.serialize_uncompressed(b).unwrap());
+            for (side, log) in [("prover", &plog), ("verifier", &vlog)] {
+                // group the hash-and-retry attempts: inputs that differ only in the 8-byte counter belong to one call
+                let mut calls: Vec<Vec<u8>> = vec![];
+                for (inp, _) in log.iter() {
+                    let body = inp[..inp.len().saturating_sub(8)].to_vec();
+                    if calls.last() != Some(&body) {
+                        calls.push(body);
+                    }
+                }
+                let k = proof.l_vec.len();
+                if calls.len() < k + 1 {
+                    problems.push(format!("{}: {} oracle calls for {} rounds", side, calls.len(), k));
+                    continue;
+                }
+                let rounds = &calls[calls.len() - k..];
+                let pre = &calls[..calls.len() - k];
+                if !pre.iter().any(|c| contains(c, &zb)) {
+                    problems.push(format!("{}: no oracle input before the rounds contains the evaluation point", side));
+                }
+                for j in 0..k {
+                    let lb = ser(&|b| proof.l_vec[j].serialize_uncompressed(b).unwrap());
+                    let rb = ser(&|b| proof.r_vec[j].serialize_uncompressed(b).unwrap());
+                    if !contains(&rounds[j], &lb) {
+                        problems.push(format!("{}: the input of round challenge {} does not contain L_{}", side, j + 1, j + 1));
+                    }
+                    if !contains(&rounds[j], &rb) {
+                        problems.push(format!("{}: the input of round challenge {} does not contain R_{}", side, j + 1, j + 1));
+                    }
+                    // chained to the previous challenge: the previous call's OUTPUT-derived field element, serialized
+                    let prev_out = log.iter().rev().find(|(inp, _)| inp[..inp.len().saturating_sub(8)] == *(if j == 0 { &pre[pre.len() - 1] } else { &rounds[j - 1] }))
+                        .and_then(|(_, out)| Fr::from_random_bytes(out));
+                    if let Some(pc) = prev_out {
+                        let pb = ser(&|b| pc.serialize_uncompressed(b).unwrap());
+                        if !contains(&rounds[j], &pb) {
+                            problems.push(format!("{}: the input of round challenge {} does not contain the previous challenge", side, j + 1));
+                        }
+                    }
+                }
+            }
+            Ok(problems)
+        });
+        match r {
+            Ok(Ok(problems)) => {
+                if !problems.is_empty() {
+                    ctx.rep.model_disagreements.push(Failure {
+                        case_id: id.clone(),
+                        signature: "ipa/oracle-input-structure".into(),
+                        what: format!("IPA random-oracle inputs do not bind the transcript: {}", problems.join("; ")),
+                        replay: format!("# property {}: the model replays the random oracle's outputs; what is hashed is checked here\n# case: {}\n# seed: {}\n# degree {} hiding {}\n# {}\n# rerun: .build/cargo/debug/pcv-harness {} --seed {} --only {}\n", prop, id, ctx.seed, d, hiding, problems.join("\n# "), prop, ctx.seed, id),
+                    });
+                }
+                ctx.rep.case(&format!("ipa oracle inputs d={} hiding={} problems={}", d, hiding, problems.len()), Some(format!("ipa-oracle-inputs/{}/{}", d, hiding)));
+            }
+            Ok(Err(e)) | Err(e) => ctx.rep.notes.push(format!("{}: could not run ({})", id, e.chars().take(80).collect::<String>())),
+        }
     }
 }
